@@ -1,6 +1,158 @@
-/- C01 — placeholder, theorems follow. -/
-import SkNet.Model.Basic
+/-
+C01 — Results do not depend on the container format; inputs are never modified.
+
+(1) Containers: `sparse.csr_matrix(x)` (= `check_format`) denotes the same matrix for CSR (unsorted indices,
+    duplicates), CSC, COO (duplicates add), LIL and dense input; containers that denote the same matrix have the
+    same canonical CSR form; the stored order of a row's entries does not change what it denotes.
+    Model: `SkNet/Model/Container.lean`, tied to scipy / check_format by the `c01.canon` run lines.
+(2) Ownership: a program of `SkNet/Model/Ownership.lean` that passes the check `safeWith` never writes a
+    caller's cell it does not declare, in any execution order, for any aliasing choice (`ownership_sound`).
+    The programs are regenerated from the working tree on every run (tools/translate/effects.py ->
+    `SkNet/Generated/Effects.lean`) and `Fn.ok` is decided for each of them (`Generated/EffectsCheck.lean`).
+-/
+import SkNet.Lemmas.Container
+import SkNet.Lemmas.Ownership
+
 namespace SkNet.C01
-open SkNet
-theorem tab_len (n : Nat) : (tab n (fun v => v)).length = n := by simp
+open SkNet SkNet.Fmt SkNet.Own
+
+attribute [-simp] List.getD_eq_getElem?_getD
+
+/-! ## containers -/
+
+/-- `check_format` keeps the shape. -/
+theorem checkFormat_shape (c : Container) :
+    (checkFormat c).nRow = c.nRow ∧ (checkFormat c).nCol = c.nCol := by
+  cases c <;> simp [checkFormat, toCsrRows, Container.nRow, Container.nCol]
+
+/-- **denote_checkFormat**. For every accepted container, the CSR matrix built by `check_format`
+(`sparse.csr_matrix(x)`) has exactly the entries of the input: unsorted indices and duplicate entries of a CSR
+input are kept, CSC is transposed, COO duplicates are summed, dense zeros are dropped. -/
+theorem denote_checkFormat (c : Container) (i j : Nat) (hi : i < c.nRow) (hj : j < c.nCol) :
+    denote (checkFormat c) i j = denote c i j := by
+  cases c with
+  | csr nCol rows => rfl
+  | lil nCol rows => rfl
+  | csc nRow cols =>
+    simp only [checkFormat, toCsrRows, denote, Container.nRow, Container.nCol] at *
+    rw [tab_getD]
+    simp only [hi, if_true]
+    rw [rowEntry_flatMap_cols cols i cols.length j]
+    simp [hj]
+  | coo nRow nCol es =>
+    simp only [checkFormat, toCsrRows, denote, Container.nRow, Container.nCol] at *
+    rw [tab_getD]
+    simp only [hi, if_true]
+    have h := rowEntry_range_filterMap
+      (fun j => !((es.filter fun e => e.1 == i && e.2.1 == j).map (·.2.2)).isEmpty)
+      (fun j => sumR ((es.filter fun e => e.1 == i && e.2.1 == j).map (·.2.2)))
+      (by
+        intro j hc
+        have : ((es.filter fun e => e.1 == i && e.2.1 == j).map (·.2.2)) = [] := by
+          simpa using hc
+        rw [this]; rfl) nCol j
+    simp only [hj, if_true] at h
+    rw [← h]
+    congr 1
+    apply filterMap_congr'
+    intro k _
+    cases hk : ((es.filter fun e => e.1 == i && e.2.1 == k).map (·.2.2)).isEmpty <;> simp [hk]
+  | dense nCol rows =>
+    simp only [checkFormat, toCsrRows, denote, Container.nRow, Container.nCol] at *
+    have hrow : (rows.map fun r => (List.range nCol).filterMap fun j =>
+        if r.getD j 0 != 0 then some (j, r.getD j 0) else none).getD i []
+        = (List.range nCol).filterMap fun j => if (rows.getD i []).getD j 0 != 0 then some (j, (rows.getD i []).getD j 0) else none := by
+      rw [List.getD_eq_getElem?_getD, List.getD_eq_getElem?_getD, List.getElem?_map,
+        List.getElem?_eq_getElem hi]
+      rfl
+    rw [hrow]
+    have h := rowEntry_range_filterMap (fun j => (rows.getD i []).getD j 0 != 0) (fun j => (rows.getD i []).getD j 0)
+      (by intro j hc; simpa using hc) nCol j
+    simp only [hj, if_true] at h
+    exact h
+
+/-- the canonical form is a function of the denotation alone -/
+theorem canon_of_denote (nCol : Nat) (rows rows' : Rows) (hlen : rows.length = rows'.length)
+    (h : ∀ i j, i < rows.length → j < nCol → rowEntry (rows.getD i []) j = rowEntry (rows'.getD i []) j) :
+    canon nCol rows = canon nCol rows' := by
+  unfold canon
+  apply List.ext_getElem?
+  intro i
+  rw [List.getElem?_map, List.getElem?_map]
+  by_cases hi : i < rows.length
+  · have hi' : i < rows'.length := hlen ▸ hi
+    rw [List.getElem?_eq_getElem hi, List.getElem?_eq_getElem hi']
+    simp only [Option.map_some, Option.some.injEq]
+    apply filterMap_congr'
+    intro j hj
+    have hj' : j < nCol := List.mem_range.1 hj
+    have := h i j hi hj'
+    rw [List.getD_eq_getElem?_getD, List.getD_eq_getElem?_getD, List.getElem?_eq_getElem hi,
+      List.getElem?_eq_getElem hi'] at this
+    simp only [Option.getD_some] at this
+    rw [this]
+  · rw [List.getElem?_eq_none (Nat.le_of_not_lt hi), List.getElem?_eq_none (by rw [← hlen]; exact Nat.le_of_not_lt hi)]
+
+/-- **sameGraph_canon**. Two containers of the same shape that denote the same matrix — whatever their
+format, stored order, duplicates — are turned by `check_format` into CSR matrices with the *same* canonical
+form (sorted indices, duplicates summed, zeros dropped). -/
+theorem sameGraph_canon (c c' : Container) (hr : c.nRow = c'.nRow) (hc : c.nCol = c'.nCol)
+    (hlen : (toCsrRows c).length = c.nRow) (hlen' : (toCsrRows c').length = c'.nRow)
+    (h : ∀ i j, i < c.nRow → j < c.nCol → denote c i j = denote c' i j) :
+    canon c.nCol (toCsrRows c) = canon c'.nCol (toCsrRows c') := by
+  rw [← hc]
+  apply canon_of_denote c.nCol _ _ (by rw [hlen, hlen', hr])
+  intro i j hi hj
+  rw [hlen] at hi
+  have h1 : rowEntry ((toCsrRows c).getD i []) j = denote c i j := denote_checkFormat c i j hi hj
+  have h2 : rowEntry ((toCsrRows c').getD i []) j = denote c' i j := denote_checkFormat c' i j (hr ▸ hi) (hc ▸ hj)
+  rw [h1, h2, h i j hi hj]
+
+/-- the length side condition of `sameGraph_canon` holds for every container whose row list has the declared
+length (CSC / COO are tabulated over `nRow`) -/
+theorem toCsrRows_length (c : Container) : (toCsrRows c).length = c.nRow := by
+  cases c <;> simp [toCsrRows, Container.nRow]
+
+/-- **unsorted indices**: permuting the stored entries of a row does not change the matrix. -/
+theorem unsorted_same (nCol : Nat) (rows rows' : Rows) (hlen : rows.length = rows'.length)
+    (hp : ∀ i, i < rows.length → (rows.getD i []).Perm (rows'.getD i [])) (i j : Nat) (hi : i < rows.length) :
+    denote (.csr nCol rows) i j = denote (.csr nCol rows') i j := by
+  simp only [denote]
+  exact rowEntry_perm (hp i hi) j
+
+/-- Non-vacuity: one graph as COO with a duplicate, as dense, as unsorted CSR — same canonical form. -/
+example :
+    canon 3 (toCsrRows (.coo 2 3 [(0, 2, 1), (0, 0, 2), (0, 2, 1), (1, 1, 5)])) = [[(0, 2), (2, 2)], [(1, 5)]] ∧
+    canon 3 (toCsrRows (.dense 3 [[2, 0, 2], [0, 5, 0]])) = [[(0, 2), (2, 2)], [(1, 5)]] ∧
+    canon 3 (toCsrRows (.csr 3 [[(2, 2), (0, 2)], [(1, 5)]])) = [[(0, 2), (2, 2)], [(1, 5)]] ∧
+    canon 3 (toCsrRows (.csc 2 [[(0, 2)], [(1, 5)], [(0, 2)]])) = [[(0, 2), (2, 2)], [(1, 5)]] := by
+  decide +kernel
+
+/-! ## ownership -/
+
+/-- **ownership_sound**. If an ownership program passes the check with some may-alias certificate, then in
+every execution — statements in any order, any number of times, any aliasing choice at every `alias` — no
+caller-owned cell is ever written except those the function declares it writes. For public entry points the
+generated declaration is empty: nothing the caller passed in is modified (`sort_indices` excepted, as the
+property says). -/
+theorem ownership_sound (prog : Prog) (A : Cert) (declared : List Nat) (np : Nat)
+    (h : safeWith prog A declared = true) (trace : List (Stmt × Nat)) (htr : ∀ e ∈ trace, e.1 ∈ prog)
+    (p : Nat) (hp : p < np) (hnd : p ∉ declared) :
+    (run (init np) trace).version.getD p 0 = 0 :=
+  (good_run A declared np prog h trace (init np) htr (good_init A declared np)).untouched p hp hnd
+
+/-- the decision procedure used on the generated programs is an instance -/
+theorem safe_sound (prog : Prog) (declared : List Nat) (np : Nat) (h : safe prog declared = true)
+    (trace : List (Stmt × Nat)) (htr : ∀ e ∈ trace, e.1 ∈ prog) (p : Nat) (hp : p < np) (hnd : p ∉ declared) :
+    (run (init np) trace).version.getD p 0 = 0 :=
+  ownership_sound prog (analyse prog) declared np h trace htr p hp hnd
+
+/-- Non-vacuity, and the check is not trivially true: copying before writing is safe, writing through a
+view of the argument is not. -/
+example : safe [.bind 0 (.param 0), .bind 1 .fresh, .mutate 1] [] = true := by decide
+example : safe [.bind 0 (.param 0), .bind 1 (.alias [0]), .mutate 1] [] = false := by decide
+/-- the unsafe program really writes the caller's cell in some execution -/
+example : (run (init 1) [(.bind 0 (.param 0), 0), (.bind 1 (.alias [0]), 0), (.mutate 1, 0)]).version = [1] := by
+  decide
+
 end SkNet.C01
